@@ -106,9 +106,18 @@ def do_yaml(group, state, want_trace, want_snap, live, newtag):
     for st in group:
         d = {k: v for k, v in live[st["preset"]].items() if k != "NMONTHS"}
         d["title"] = "c14"
+        if st.get("own_nmonths") is not None:
+            d["NMONTHS"] = st["own_nmonths"]       # a simulation carrying its own NMONTHS key
         sims["sim_" + st["id"]] = d
-    config = {"settings": {"countries": countries if len(countries) > 1 else countries[0], "NMONTHS": group[0]["nmonths"]},
-              "simulations": sims}
+    settings_nmonths = [st["nmonths"] for st in group if st.get("own_nmonths") is None][0] if \
+        any(st.get("own_nmonths") is None for st in group) else group[0]["nmonths"]
+    import yaml
+    ypath = os.path.join(os.environ.get("VERIF_WORK", "/verif/work/C14"), "c14_%d_%s.yaml" % (os.getpid(), group[0]["yaml_group"]))
+    with open(ypath, "w") as f:
+        yaml.safe_dump({"settings": {"countries": countries if len(countries) > 1 else countries[0], "NMONTHS": settings_nmonths},
+                        "simulations": sims}, f, sort_keys=False)
+    config = ry.load_config_data(ypath)            # absolute path: read as is by the real loader
+    sims = config["simulations"]
     config_fp = T.fingerprint({k: {a: b for a, b in v.items() if a != "NMONTHS"} for k, v in sims.items()})
     outs, todo = [], list(group)
     orig = ScenarioRunnerNoTrade.run_model_no_trade
